@@ -30,9 +30,56 @@ fn round_half_up(exp: u64, mant: u64) -> ([u64; 4], bool) {
         if sh > 256 - 53 {
             ([0; 4], true)
         } else {
-            (refm::shl(&[m, 0, 0, 0], sh), false)
+            (shl4(m, sh), false)
         }
     }
+}
+
+/// m * 2^sh over four limbs, loop-free (a loop in the oracle would raise the harness-wide unwinding bound, which is
+/// also the recursion bound of TryFrom<f64>: 2^bound copies of its body)
+#[inline(always)]
+fn shl4(m: u64, sh: usize) -> [u64; 4] {
+    let (k, o) = (sh / 64, sh % 64);
+    let lo = m << o;
+    let hi = if o == 0 { 0 } else { m >> (64 - o) };
+    match k {
+        0 => [lo, hi, 0, 0],
+        1 => [0, lo, hi, 0],
+        2 => [0, 0, lo, hi],
+        3 => [0, 0, 0, lo],
+        _ => [0, 0, 0, 0],
+    }
+}
+
+/// the 4-limb oracle value cut to L limbs, and whether it fits B bits (loop-free)
+#[inline(always)]
+fn fit4<const L: usize>(v: &[u64; 4], big: bool, bits: usize) -> ([u64; L], bool) {
+    let mut w = [0u64; L];
+    let mut fits = !big;
+    if 0 < L {
+        w[0] = v[0];
+    } else {
+        fits &= v[0] == 0;
+    }
+    if 1 < L {
+        w[1] = v[1];
+    } else {
+        fits &= v[1] == 0;
+    }
+    if 2 < L {
+        w[2] = v[2];
+    } else {
+        fits &= v[2] == 0;
+    }
+    if 3 < L {
+        w[3] = v[3];
+    } else {
+        fits &= v[3] == 0;
+    }
+    if L > 0 {
+        fits &= w[L - 1] & !refm::mask(bits) == 0;
+    }
+    (w, fits)
 }
 
 #[inline(always)]
@@ -108,18 +155,7 @@ pub fn from_f64<const B: usize, const L: usize, const CLS: usize>(nd: &mut Nd) {
         }
         Want::Value(v, big) => {
             // fits B bits?
-            let mut w = [0u64; L];
-            let mut fits = !big;
-            let mut i = 0;
-            while i < 4 {
-                if i < L {
-                    w[i] = v[i];
-                } else {
-                    fits &= v[i] == 0;
-                }
-                i += 1;
-            }
-            fits &= refm::canonical(&w, B);
+            let (w, fits) = fit4::<L>(&v, big, B);
             cov!(nd, "fits", fits);
             cov!(nd, "too-large", !fits);
             match got {
@@ -144,18 +180,7 @@ pub fn from_f32<const B: usize, const L: usize>(nd: &mut Nd) {
         Want::Nan => chk!(nd, "C18.from_f32.nan", matches!(got, Err(ToUintError::NotANumber(_)))),
         Want::Negative => chk!(nd, "C18.from_f32.negative", matches!(got, Err(ToUintError::ValueNegative(..)))),
         Want::Value(v, big) => {
-            let mut w = [0u64; L];
-            let mut fits = !big;
-            let mut i = 0;
-            while i < 4 {
-                if i < L {
-                    w[i] = v[i];
-                } else {
-                    fits &= v[i] == 0;
-                }
-                i += 1;
-            }
-            fits &= refm::canonical(&w, B);
+            let (w, fits) = fit4::<L>(&v, big, B);
             match got {
                 Ok(x) => chk!(nd, "C18.from_f32.value", fits && refm::eq(x.as_limbs(), &w)),
                 Err(ToUintError::ValueTooLarge(..)) => chk!(nd, "C18.from_f32.too_large_but_fits", !fits),
@@ -225,18 +250,7 @@ pub fn try_from_f64<const B: usize, const L: usize, const CLS: usize>(nd: &mut N
         Want::Nan => chk!(nd, "C18.from_f64.nan", matches!(got, Err(ToUintError::NotANumber(b)) if b == B)),
         Want::Negative => chk!(nd, "C18.from_f64.negative", matches!(got, Err(ToUintError::ValueNegative(b, _)) if b == B)),
         Want::Value(v, big) => {
-            let mut w = [0u64; L];
-            let mut fits = !big;
-            let mut i = 0;
-            while i < 4 {
-                if i < L {
-                    w[i] = v[i];
-                } else {
-                    fits &= v[i] == 0;
-                }
-                i += 1;
-            }
-            fits &= refm::canonical(&w, B);
+            let (w, fits) = fit4::<L>(&v, big, B);
             cov!(nd, "fits", fits);
             cov!(nd, "too-large", !fits);
             match got {
@@ -258,18 +272,7 @@ pub fn saturating_from_f64<const B: usize, const L: usize, const CLS: usize>(nd:
         Want::Nan => chk!(nd, "C18.saturating_from.nan", refm::is_zero(sat.as_limbs())),
         Want::Negative => chk!(nd, "C18.saturating_from.negative", refm::is_zero(sat.as_limbs())),
         Want::Value(v, big) => {
-            let mut w = [0u64; L];
-            let mut fits = !big;
-            let mut i = 0;
-            while i < 4 {
-                if i < L {
-                    w[i] = v[i];
-                } else {
-                    fits &= v[i] == 0;
-                }
-                i += 1;
-            }
-            fits &= refm::canonical(&w, B);
+            let (w, fits) = fit4::<L>(&v, big, B);
             let max = refm::max::<L>(B);
             chk!(nd, "C18.saturating_from.value", refm::eq(sat.as_limbs(), if fits { &w } else { &max }));
         }
